@@ -711,11 +711,17 @@ def run(ctx):
         "of the tree (map_heap_agree_tree); the three counter-examples of the pre-F48 shape stay as theorems about that shape",
         "empty_discards_held_this_tree: F27 (/repo ebb5df3: REQ/TOUCH hold c.RLock) is committed, Tie.Life.answers_channel_lock_shape accepts ONLY "
         "its shape and tree_ans_lock decides ansLock = true (tree_is_f27Tree); the theorem carries the hypothesis that no timeout scan holds a "
-        "message when Empty begins (forced: empty_discards_held_scan_false; open finding empty-races-timeout-scan-message-survives). "
-        "empty_survivor_variants is about the tree BEFORE F27 (findings empty-races-req/touch-message-survives, listed fixed, replayed: a "
+        "message when Empty begins (noScanHeld = no in-flight scan continuation; the deferred scan's popDeferredMessage -> c.put window is "
+        "not a model step; forced: empty_discards_held_scan_false; open finding empty-races-timeout-scan-message-survives). "
+        "empty_survivor_variants is about the tree just BEFORE F27 (committedTree; empty_discards_held_full_false is about the still older pre-F48 "
+        "shape) (findings empty-races-req/touch-message-survives, listed fixed, replayed: a "
         "reproduction is a VIOLATION)",
         "configuration: --sync-every >= 1 (E9 CfgOk.sync is an assumption on the configuration: nsqd does not validate the option; "
-        "with 0 the open finding sync-every-zero-delete-leaves-meta-file applies; fixes/F25 is a proposal only)",
+        "with 0 the open finding sync-every-zero-delete-leaves-meta-file applies; fixes/F25 is a proposal only); 'Empty/Delete leave no file' "
+        "excludes quarantine files: open finding diskqueue-bad-file-left-behind (.bad files survive Empty and Delete; replayed on every run)",
+        "atomic-model theorems delete_chan_effects / empty_chan_snapshot / ephemeral_autodelete_once / no_delivery_after_discard / "
+        "no_delivery_after_delete: the channel is not already exiting; the last two also: x not in the topic's own queue, not in an orphaned "
+        "disk queue, not published again",
         "no_zombie_fixed (topic deletion vs SUB / re-creation / second deletion) is a theorem about this tree: F19 8445d6a + F20 dbf8a73 are "
         "committed and the ties sub_guard_shape / delete_topic_shape / tree_model_known demand their shapes; about the tree BEFORE them "
         "DeleteDisconnectsFull is false (delete_disconnects_full_false, witnessDouble_leaks) - both witnesses are fixed findings replayed on "
